@@ -80,6 +80,7 @@ def run(S):
     S.no_panic('C08.c.nopanic', E, pre, 'no underflow for expiries admitted by the final-hop check', [bind])
     S.witness('C08.c.witness', E, pre, rv.t)
     height_timer(S, D)
+    final_hop(S, D)
 
 
 def height_timer(S, D):
@@ -120,3 +121,59 @@ def height_timer(S, D):
     S.prove('C08.d.range', E, pre, z3.And(rv.t > h.t, rv.t <= h.t + 15), 'the timer always lies in (h, h+15]', [b])
     S.no_panic('C08.d.nopanic', E, pre, 'no overflow for block-height locktimes', [b])
     S.witness('C08.d.witness', E, pre + [n == NCAP], rv.t == h.t + 3)
+
+
+def final_hop(S, D):
+    """C08.f: the final-hop acceptance check (a payment is only shown claimable with enough blocks left)"""
+    import re
+    E = S.engine()
+    mem = {}
+    f = S.fn('create_recv_pending_htlc_info')
+    E.models.insert(0, (re.compile(r'sha256::Hash as .*Hash>::hash$|::to_byte_array$|SharedSecret::secret_bytes$'), lambda *a: X.Opaque('hash')))
+    E.models.insert(0, (re.compile(r'PaymentHash as PartialEq>::(ne|eq)$'), lambda E_, m, *a: X.B(z3.Bool('keysend_hash_mismatch')) if m.group(1) == 'ne' else X.B(z3.Not(z3.Bool('keysend_hash_mismatch')))))
+    args = []
+    for (n, ty) in f.params:
+        args.append(E.sym('p%d' % n, ty, mem))
+    hop, amt, cltv, underpay, skim, height = args[0], args[3], args[4], args[6], args[7], args[9]
+    rv = S.call(E, f, args, mem)
+    returns = S.ret_guard
+    ok = z3.And(returns, X.zint(rv.d) == 0)
+    HV = lambda n: D.variant_index('Hop', n, hint='onion_utils')
+    is_recv = X.zint(hop.d) == HV('Receive')
+    payload = E.read_path(hop, (('v', 'Receive'), ('f', 0, 'ln::msgs::InboundOnionReceivePayload')), mem, True, 'spec')
+    onion_amt = field(E, D, 'InboundOnionReceivePayload', 'sender_intended_htlc_amt_msat', payload, 'u64').t
+    onion_cltv = field(E, D, 'InboundOnionReceivePayload', 'cltv_expiry_height', payload, 'u32').t
+    pdata = field(E, D, 'InboundOnionReceivePayload', 'payment_data', payload, 'Option<ln::msgs::FinalOnionHopData>')
+    keysend = field(E, D, 'InboundOnionReceivePayload', 'keysend_preimage', payload, 'Option<PaymentPreimage>')
+    total = E.read_path(pdata, (('v', 'Some'), ('f', 0, 'ln::msgs::FinalOnionHopData'), ('f', D.field_index('FinalOnionHopData', 'total_msat'), 'u64')), mem, True, 'spec').t
+    skim_some, skim_v = X.zint(skim.d) == 1, skim.vs[1][0].t
+    pre = [height.t < (1 << 31)]
+    reason = E.read_path(rv, (('v', 'Err'), ('f', 0, 'InboundHTLCErr'), ('f', D.field_index('InboundHTLCErr', 'reason'), 'onion_utils::LocalHTLCFailureReason')), mem, True, 'spec')
+    R = lambda n: D.variant_index('LocalHTLCFailureReason', n)
+    info = E.read_path(rv, (('v', 'Ok'), ('f', 0, 'PendingHTLCInfo')), mem, True, 'spec')
+    out_amt = field(E, D, 'PendingHTLCInfo', 'outgoing_amt_msat', info, 'u64')
+    panic = z3.Or(*[X.zbool(p[0]) for p in E.panics]) if E.panics else False
+
+    def parse(t):
+        if t[0] == 'Ok':
+            return [0, None]
+        return [1, R(t[1])]
+    b = Binding('create_recv_probe', [onion_amt, onion_cltv, total, amt.t, cltv.t, underpay.t, z3.If(skim_some, 1, 0), z3.If(skim_some, skim_v, 0), height.t],
+                [rv.d, X.zint(reason.d)], parse=parse, panic=panic)
+    plain = [is_recv, X.zint(pdata.d) == 1, X.zint(keysend.d) == 0]      # what the native probe builds
+    c_cltv = onion_cltv <= cltv.t
+    c_soon = cltv.t > height.t + HTLC_FAIL_BACK_BUFFER + 1
+    c_amt = z3.If(X.zbool(underpay.t), onion_amt <= z3.If(amt.t + z3.If(skim_some, skim_v, 0) > U64, U64, amt.t + z3.If(skim_some, skim_v, 0)), onion_amt <= amt.t)
+    S.prove('C08.f.recv_deadline', E, pre, z3.Implies(ok, c_soon),
+            'whatever the onion says, an HTLC is accepted for receipt only if it expires more than HTLC_FAIL_BACK_BUFFER + 1 blocks after the current height: a payment shown claimable is still claimable in the next block',
+            bounds='all onion payload kinds, heights < 2^31, all expiries/amounts')
+    S.prove('C08.f.recv_checks', E, pre + [is_recv], z3.Implies(ok, z3.And(c_cltv, c_amt)),
+            'an accepted final-hop HTLC carries at least the expiry and (unless underpaying is explicitly allowed, then up to the skimmed fee) the amount the sender put in the onion')
+    S.prove('C08.f.recv_plain_iff', E, pre + plain, z3.And(ok == z3.And(c_cltv, c_soon, c_amt),
+            z3.Implies(z3.Not(c_cltv), X.zint(reason.d) == R('FinalIncorrectCLTVExpiry')),
+            z3.Implies(z3.And(c_cltv, z3.Not(c_soon)), X.zint(reason.d) == R('PaymentClaimBuffer')),
+            z3.Implies(z3.And(c_cltv, c_soon, z3.Not(c_amt)), X.zint(reason.d) == R('FinalIncorrectHTLCAmount'))),
+            'for a plain (non-blinded, non-keysend) receive the three checks are also sufficient, and each refusal names the first violated check',
+            [b], bounds='heights < 2^31')
+    S.no_panic('C08.f.nopanic', E, pre + [X.zint(hop.d) != HV('Dummy')], 'no overflow for heights < 2^31 (the Dummy hop arm is a debug_assert!(false): such hops are peeled before this function)', [b])
+    S.witness('C08.f.witness', E, pre + plain, ok)
